@@ -220,7 +220,7 @@ def run(ctx):
 
     # ---- R04.3 NTLM offsets (shared with C15) --------------------------------------------------------------------------
     import c15
-    ctx.include(c15.run, ('R15.1',), 'R04.3')
+    ctx.include(c15.run, ('R15.1', 'R15.4'), 'R04.3')
 
     rule_utf16(ctx, 'R04.6')
     import c17
